@@ -50,6 +50,13 @@ func H04_persist() {
 	docs, sp := vGenBatch(vStdCfg("", "d", 1+vChoice("nDocs", vParam("maxDocs", 2)), -1))
 	mode := vChunkMode()
 	var z ZapPlugin
+	if vBool("priorBuild") {
+		// the pooled builder (and whatever it keeps between builds) has been used for another batch before
+		prior, _ := vGenBatchFixed(gCfg{prefix: "p", idBase: "p", nDocs: 2, wide: -1,
+			fields: []gField{{name: "f", terms: []string{"z", "y"}, dv: true, store: true, fixFreq: true}, {name: "h", terms: []string{"x"}, fixFreq: true}}})
+		_, _, err := z.newWithChunkMode(prior, DefaultChunkMode)
+		vAssert(err == nil, "prior-build")
+	}
 	seg, _, err := z.newWithChunkMode(docs, mode)
 	vAssert(err == nil, "build")
 	sb := seg.(*SegmentBase)
